@@ -10,6 +10,8 @@ import (
 	"os/exec"
 	"path/filepath"
 	"runtime"
+	"runtime/debug"
+	"runtime/pprof"
 	"strings"
 	"sync/atomic"
 	"time"
@@ -111,24 +113,30 @@ func c39HeadersEqual(want []hdesc, got http.Header) string {
 	if len(want) != len(got) {
 		return fmt.Sprintf("%d names written, %d read back", len(want), len(got))
 	}
-	used := map[string]bool{}
+	byLower := make(map[string]string, len(got))
+	for name := range got {
+		byLower[strings.ToLower(name)] = name
+	}
+	used := make(map[string]bool, len(got))
 	for _, w := range want {
-		found := false
-		for name, vals := range got {
-			if used[name] || !strings.EqualFold(name, string(w.Name)) {
-				continue
+		name, found := byLower[strings.ToLower(string(w.Name))]
+		if !found || used[name] {
+			found = false
+			for n := range got { // slow path: any name equal under case folding
+				if !used[n] && strings.EqualFold(n, string(w.Name)) {
+					name, found = n, true
+					break
+				}
 			}
-			used[name] = true
-			found = true
-			wj := string(bytes.Join(w.Values, []byte{0}))
-			gj := strings.Join(vals, "\x00")
-			if wj != gj {
-				return fmt.Sprintf("value of %q differs (%d vs %d bytes)", w.Name, len(wj), len(gj))
-			}
-			break
 		}
 		if !found {
 			return fmt.Sprintf("name %q not read back", w.Name)
+		}
+		used[name] = true
+		wj := string(bytes.Join(w.Values, []byte{0}))
+		gj := strings.Join(got[name], "\x00")
+		if wj != gj {
+			return fmt.Sprintf("value of %q differs (%d vs %d bytes)", w.Name, len(wj), len(gj))
 		}
 	}
 	return ""
@@ -405,19 +413,21 @@ func c39Value(g *vkit.Rand) []byte {
 
 func c39Headers(g *vkit.Rand) []hdesc {
 	n := g.Intn(9)
-	switch g.Intn(40) {
+	switch g.Intn(300) {
 	case 0:
 		n = 1024
-	case 1:
+	case 1, 2, 3:
 		n = 60 + g.Intn(200)
 	}
 	var hs []hdesc
+	seen := map[string]bool{}
 	add := func(name []byte) {
-		for _, h := range hs {
-			if strings.EqualFold(string(h.Name), string(name)) {
-				return
-			}
+		// distinct under case folding: ToLower(ToUpper(x)) is a fold key for the generated alphabets
+		key := strings.ToLower(strings.ToUpper(string(name)))
+		if seen[key] {
+			return
 		}
+		seen[key] = true
 		hd := hdesc{Name: name}
 		k := 1
 		if g.Chance(1, 4) {
@@ -543,7 +553,7 @@ type c39RT struct {
 type c39Stats struct {
 	rtSeq, rtFrames, rtHeaderFrames, rtLenChangingSeq int64
 	hostileStreams, hostileFramesOK, hostileErrors    int64
-	allocMeasured, allocMaxPermille                   int64
+	allocMeasured, allocMaxPermille, allocMaxValid    int64
 	synShort, synShortErr                             int64
 	childCases, childOOM                              int64
 }
@@ -791,8 +801,6 @@ func c39Block(g *vkit.Rand, giant uint32, valid bool) (content []byte, shape str
 				vl += over
 				shape = "value-length"
 			}
-		} else if !valid && g.Chance(1, 12) && nl > 0 {
-			nl--
 		}
 		content = append(content, be32(nl)...)
 		content = append(content, name...)
@@ -972,21 +980,27 @@ func c39Mutate(g *vkit.Rand, wire []byte, frames []fdesc, ends []int) []byte {
 	if len(b) == 0 {
 		return b
 	}
-	allowed := func(p int) bool {
+	// insert: may bytes be inserted before p / may the byte at p change?
+	allowed := func(p int, insert bool) bool {
 		start := 0
 		for i, e := range ends {
 			if p < e {
 				off := p - start
-				if off == 5 {
-					return false
-				}
+				hdr := 0
 				switch frames[i].Type {
 				case "syn_stream":
-					return off < 18
+					hdr = 18
 				case "syn_reply", "headers":
-					return off < 12
+					hdr = 12
 				}
-				return true
+				if hdr > 0 {
+					if insert {
+						return off == 0 // never shift a compressed block
+					}
+					// not the type (would move the start of the compressed block), not the top length byte
+					return off < hdr && off != 2 && off != 3 && off != 5
+				}
+				return off != 5
 			}
 			start = e
 		}
@@ -997,17 +1011,17 @@ func c39Mutate(g *vkit.Rand, wire []byte, frames []fdesc, ends []int) []byte {
 		return b[:g.Intn(len(b))]
 	case 2:
 		i := g.Intn(len(b))
-		if !allowed(i) {
+		if !allowed(i, true) {
 			return b[:i]
 		}
 		return append(b[:i:i], append(g.Bytes(1+g.Intn(4)), wire[i:]...)...)
 	}
 	for k := 1 + g.Intn(3); k > 0; k-- {
 		i := g.Intn(len(b))
-		for tries := 0; tries < 20 && !allowed(i); tries++ {
+		for tries := 0; tries < 20 && !allowed(i, false); tries++ {
 			i = g.Intn(len(b))
 		}
-		if !allowed(i) {
+		if !allowed(i, false) {
 			return b[:i]
 		}
 		switch g.Intn(4) {
@@ -1109,8 +1123,13 @@ func c39ReadHostile(r *vkit.Run, st *c39Stats, h *c39Hostile, measure bool) {
 			delta := ms1.TotalAlloc - ms0.TotalAlloc
 			limit := c39AllocLimit(declared)
 			st.allocMeasured++
-			if pm := int64(delta * 1000 / limit); pm > st.allocMaxPermille && delta <= limit {
-				st.allocMaxPermille = pm
+			if pm := int64(delta * 1000 / limit); delta <= limit {
+				if pm > st.allocMaxPermille {
+					st.allocMaxPermille = pm
+				}
+				if pm > st.allocMaxValid && h.Origin == "valid-written" {
+					st.allocMaxValid = pm
+				}
 			}
 			if delta > limit {
 				shape := "unjustified:" + tname
@@ -1243,8 +1262,8 @@ func c39ExecChild(r *vkit.Run, st *c39Stats, h *c39Hostile, idx int) (res *c39Ch
 	}
 	defer os.Remove(path)
 	r.WriteAhead(h)
-	cmd := exec.Command("bash", "-c", `ulimit -v 2097152 && exec "$0" "$@"`, os.Args[0], "-prop", "C39", "-replay", path)
-	cmd.Env = append(os.Environ(), "VERIF_C39_CHILD=1", "GOGC=100")
+	cmd := exec.Command("bash", "-c", `ulimit -c 0; ulimit -v 2097152 && exec "$0" "$@"`, os.Args[0], "-prop", "C39", "-replay", path)
+	cmd.Env = append(os.Environ(), "VERIF_C39_CHILD=1", "GOGC=100", "GOTRACEBACK=none")
 	var stdout, stderr bytes.Buffer
 	cmd.Stdout, cmd.Stderr = &stdout, &stderr
 	err := cmd.Run()
@@ -1370,12 +1389,14 @@ func c39(r *vkit.Run) {
 		"reader exactly at the frame end after every frame, (nil, EOF) after the last. Excluded: names equal under case folding within one frame, the hop-by-hop names the reader rejects by design (connection, host, keep-alive, proxy-connection, transfer-encoding), " +
 		":path > 8 KB, > 1024 headers/settings (reader limits), values compared NUL-joined (SPDY's own multi-value encoding). " +
 		"(2) hostile streams: (a) mutations (bit flip, +-1, random byte, truncate, insert) of the wire bytes of (1); (b) crafted streams of 1..4 frames + a PING: header frames whose block is built from stored deflate blocks " +
-		"(wrong numHeaders, name/value lengths +-1 / beyond the data / up to 64 MiB, upper-case, empty, duplicate, forbidden names, truncated blocks, declared frame length +-1, below the fixed part, random), " +
+		"(wrong numHeaders, name/value lengths +-1 / beyond the data / up to 16 MiB, upper-case, empty, duplicate, forbidden names, truncated blocks, declared frame length +-1, below the fixed part, random), " +
 		"RST/PING/GOAWAY/WINDOW_UPDATE/SETTINGS with every declared length 0..20, data frames, unknown types/versions, random bytes. Oracle: no panic; never (frame, error) together or (nil, nil); after every SUCCESSFUL ReadFrame the reader stands at 8 + declared length " +
 		"(nothing is demanded after an error: the only caller drops the connection); in the single-goroutine phase TotalAlloc delta of one ReadFrame <= 4*(declared length*1032 + 64 KiB). " +
 		"Announcements of 2^30..2^32-1 bytes run in a re-executed child under ulimit -v 2 GiB. Non-trivial = sequence with >= 1 header-bearing frame, or hostile stream that is not purely random bytes; distinct = hash of the wire bytes + delivery mode.")
 	r.Assume("zlib stream header (SPDY/3 dictionary id) learned from the first block bfe's own writer emits; crafted blocks use stored deflate blocks only, so no dictionary content is needed")
 	st := &c39Stats{}
+	// fewer collections: every NewFramer takes a zlib writer from a sync.Pool that each GC empties
+	debug.SetGCPercent(400)
 	zhdr, err := c39ZlibHeader()
 	if err != nil {
 		r.Inconclusive(err.Error())
@@ -1423,6 +1444,11 @@ func c39(r *vkit.Run) {
 		return
 	}
 
+	if p := os.Getenv("VERIF_C39_DEV_PROF"); p != "" { // development only
+		f, _ := os.Create(p)
+		pprof.StartCPUProfile(f)
+		defer pprof.StopCPUProfile()
+	}
 	t0 := time.Now()
 	phase := func(name string) {
 		fmt.Fprintf(os.Stderr, "c39: %s done at %.1fs\n", name, time.Since(t0).Seconds())
@@ -1434,6 +1460,9 @@ func c39(r *vkit.Run) {
 	}
 	nRT := r.N(40000, 1200000) / div
 	nMutPer := 2
+	if os.Getenv("VERIF_C39_DEV_NOMUT") != "" {
+		nMutPer = 0
+	}
 	vkit.Parallel(nRT, 0, func(i int) {
 		g := r.Rng("rt", i)
 		w := c39GenRT(g, i)
@@ -1504,7 +1533,7 @@ func c39(r *vkit.Run) {
 		} else {
 			giant := uint32(1 << 20)
 			if i%16 == 1 {
-				giant = 64 << 20
+				giant = 16 << 20
 			}
 			h = c39GenHostile(g, zhdr, giant)
 			if giant > 1<<20 {
@@ -1558,6 +1587,7 @@ func c39(r *vkit.Run) {
 	r.Count("hostile_errors_returned", st.hostileErrors)
 	r.Count("alloc_calls_measured", st.allocMeasured)
 	r.Count("alloc_max_permille_of_limit_within_bound", st.allocMaxPermille)
+	r.Count("alloc_max_permille_of_limit_valid_traffic", st.allocMaxValid)
 	r.Count("header_frames_declaring_less_than_fixed_part", st.synShort)
 	r.Count("header_frames_declaring_less_than_fixed_part_rejected", st.synShortErr)
 	r.Count("child_cases", st.childCases)
